@@ -590,6 +590,22 @@ def rule_e(ctx):
                 forms = (f"self.{A}", f"self.{A} if hasattr(self, '{A}') else None")
                 ctx.ob(R, s.qname, f"{k.name}: key {'.'.join(kp)} restored into self.{A} is written as self.{A}", w is not None and norm(w) in forms,
                        f"save writes `{norm(w) if w is not None else None}` under {'.'.join(kp)}; load assigns it to self.{A} unchanged", w if w is not None else s.node)
+        # ... and the other way round: an attribute written under its own top-level key is read back from that key (an attribute that
+        # load re-derives from something else -- a default, the configuration -- comes back different whenever it was set independently)
+        restored = {}
+        for st in ast.walk(l.node):
+            if isinstance(st, ast.Assign) and len(st.targets) == 1 and self_attr(st.targets[0]):
+                restored.setdefault(self_attr(st.targets[0]), []).append(keypath(st.value))
+        for kp, w in written.items():
+            if len(kp) != 1 or kp[0] in ("class_name",) or not (isinstance(w, ast.Attribute) and isinstance(w.value, ast.Name) and w.value.id == "self"):
+                continue
+            A = w.attr
+            if A not in restored:
+                continue  # restored by other means (constructor call inside load, ...): not read here
+            n += 1
+            ctx.instance(R)
+            ctx.ob(R, l.qname, f"{k.name}: self.{A}, written under '{kp[0]}', is read back from that key", any(r == kp for r in restored[A]),
+                   f"load assigns self.{A} from {[('.'.join(r) if r else 'something that is not in the file') for r in restored[A]]}, never from the stored '{kp[0]}'", l.node, evidence=True)
     ctx.floor(R, 6)
 
 
